@@ -33,12 +33,17 @@ RULE = ('template trees over ConstantPT/TablePT/FunctionPT atoms and AtomicMulti
         'run and the plain run; plus convenience constructors (@, concatenate, with_repetition/**, with_mapping '
         'chains incl. measurement names, with_parallel_channels chains, with_parallel_atomic, with_time_reversal twice, '
         'with_iteration, pad_to, with_appended) '
-        'against the explicit nesting.  Non-trivial = at least 2 nodes and (non-empty effective set or a '
+        'against the explicit nesting.  Round 3: MappingPT PARAMETER mappings (a name rebound to an expression of itself, '
+        'swaps, top-level parameters), family `rebind` (loop index rebound between ForLoopPT and the reader with every '
+        'builder feature in between), family `shape` (collapsed single transformed leaf + outer transformation; '
+        'wait-pulse-wait), aliasing (`share`: equal sub-trees are one object) and stateful (`reuse`: same objects '
+        'compiled plain / with options / plain again) variants.  Non-trivial = at least 2 nodes and (non-empty effective set or a '
         'transformation or a constructor case); distinct = distinct canonical JSON.')
 TRUSTED = [
     'Coq 8.16.1 kernel + vm_compute (no native_compute)',
-    'harness: generators, JSON -> real template builder, JSON -> Gallina printer (for-loops are unrolled and index '
-    'expressions evaluated by the harness), leaf-walk sampler, exact float->rational conversion',
+    'harness: generators, JSON -> real template builder, JSON -> Gallina printer (syntactic: expressions, loops, '
+    'parameter mappings and AtomicMultiChannelPT nesting are printed as they stand; the MODEL evaluates, unrolls and '
+    'flattens), describe() reading built templates back, leaf-walk sampler, exact float->rational conversion',
     'sympy/numpy evaluate the generated constant and affine index expressions exactly (dyadic values)',
     'structural equality of templates (Serializable.__eq__) coincides with equality of the generated descriptions',
 ]
@@ -49,8 +54,11 @@ ASSUMPTIONS = [
     '(the constant-detection defect of TableWaveform._validate_input belongs to C01/C08)',
     'get_sampled\'s per-channel constant short-cut is modelled only for whether it raises KeyError (cvalue); its values '
     'cannot be observed on [0, duration)',
-    'MappingPT is modelled for channel and measurement renaming; parameters are closed (for-loop indices are substituted)',
-    'an AtomicMultiChannelPT is flattened to one atom by the harness printer (MultiChannelWaveform.from_parallel)',
+    'parameter expressions are affine in loop indices / top-level parameters; every referenced parameter is provided; '
+    'parameter constraints and volatile parameters are not modelled',
+    'generated durations are positive whole numbers of ticks under every scope that reaches them (cases where a '
+    'parameter mapping makes a duration fractional or negative are filtered out by the harness)',
+    'global LinearTransformations only read channels the template defines',
 ]
 
 CH = {'A': 1, 'B': 2, 'C': 3, 'X': 4, 'Y': 5, 'Z': 6}
@@ -1335,12 +1343,18 @@ MANIFEST = {
                   'transformation chains that collapsing changes neither voltages nor duration nor the multiset of '
                   'measurement windows, that a global transformation acts pointwise, and that compiled programs are '
                   'well-formed - under two executable guards that exclude the two confirmed defect classes, which are '
-                  'refuted on witnesses. Constructor claims proved: concatenate/@/with_appended, pad_to, double '
-                  'with_time_reversal, chained with_parallel_channels (guarded + refuted). Still only tested: '
-                  'with_repetition count merging, chained with_mapping, with_parallel_atomic flattening. The model is '
-                  'tied to /repo by an exact correspondence check.',
+                  'refuted on witnesses (the reversal clause only excludes collapsed composite templates: collapsing an '
+                  'atom is proved to be the identity). Parameters are inside the model: the code\'s scope threading '
+                  '(MappedScope, RangeScope, the builder\'s frame stack) is proved equal to compiling the instantiated '
+                  'template for every frame stack, so the option theorems hold for parametrised templates with '
+                  'parameter mappings that rebind names. Constructor claims proved: concatenate/@/with_appended, pad_to, '
+                  'double with_time_reversal, with_repetition/** count merging, chained with_mapping (incl. parameter '
+                  'mappings merged by substitution: equal programs), with_parallel_atomic (distinct channels), chained '
+                  'with_parallel_channels (guarded + refuted). Not proved: freedom from KeyError of compiled leaves. '
+                  'The model is tied to /repo by an exact correspondence check.',
     'level_note': 'see notes/C05.md for which statements are full / guarded / only tested',
-    'technique': 'Coq proof by induction over template trees (frame lemma on builder states) + correspondence check on '
-                 'generated trees x option subsets + one independent Python oracle for with_parallel_channels',
+    'technique': 'Coq proof by induction over template trees (frame lemma on builder states, scope-threading refinement) '
+                 '+ correspondence check on generated parametrised trees x option subsets (incl. name-coincidence, '
+                 'aliasing and stateful families) + one independent Python oracle for with_parallel_channels',
     'design_ref': 'DESIGN.md §5 C05',
 }
